@@ -438,3 +438,5 @@ def check(ctx, run):  # noqa: F811
     N_ = "pfhedge.nn.modules.bs."
     ctor_rule(ctx, run, "C08.R7", [N_ + c for c in ("european.BSEuropeanOption", "lookback.BSLookbackOption", "american_binary.BSAmericanBinaryOption", "european_binary.BSEuropeanBinaryOption")], None,
               "the module prices / differentiates another contract than the one it was created for")
+    from ..ctors import rebinding_rule
+    rebinding_rule(ctx, run, "C08.R7", ["pfhedge.nn.modules.bs"], 8)
